@@ -365,7 +365,14 @@ var c20Hostile = []string{"{", "}", "\"", "\\", "\n", "#", "$(", ")", " ", "(", 
 
 func c20GenDoc(t *rapid.T) c20Doc {
 	g := &c20Gen{t: t}
-	switch g.n("shape", 0, 19) {
+	shape := g.n("shape", 0, 19)
+	if shape == 5 {
+		// the three expensive shapes share one slot
+		shape = []int{5, 6, 7}[g.n("expensive_shape", 0, 2)]
+	} else if shape == 6 || shape == 7 {
+		shape = 8
+	}
+	switch shape {
 	case 0: // deep nesting
 		depth := rapid.SampledFrom([]int{10, 200, 254, 255, 256, 257, 258, 259, 300, 2000}).Draw(t, "depth")
 		same := rapid.Bool().Draw(t, "sameline")
@@ -383,6 +390,24 @@ func c20GenDoc(t *rapid.T) c20Doc {
 		}
 	case 1: // raw bytes
 		g.b.WriteString(rapid.String().Draw(t, "raw"))
+	case 6: // a block opened on one line, a declaration that carries the closing brace on the next, over and over
+		n := rapid.SampledFrom([]int{2, 10, 300, 2000}).Draw(t, "glued_levels")
+		decl := rapid.SampledFrom([]string{"(s) }", "$(m) = v }", "(s) {\n x\n} }"}).Draw(t, "glued_decl")
+		for i := 0; i < n; i++ {
+			g.b.WriteString("b {\n" + decl + "\n")
+		}
+		g.b.WriteString("leaf\n")
+	case 7: // a macro with many values, legal by itself, used on many lines
+		// (definition lines, uses): small trees that are allowed, and totals that no reader should materialise
+		pair := rapid.SampledFrom([][2]int{{8, 1}, {8, 50}, {12, 20}, {15, 80}, {15, 400}}).Draw(t, "many_values")
+		lines := pair[0]
+		g.b.WriteString("$(v0) = x y\n")
+		for i := 1; i <= lines; i++ {
+			fmt.Fprintf(&g.b, "$(v%d) = $(v%d) $(v%d)\n", i, i-1, i-1)
+		}
+		for i := 0; i < pair[1]; i++ {
+			fmt.Fprintf(&g.b, "d $(v%d)\n", lines)
+		}
 	case 5: // macros defined in terms of the previous one: the value doubles with every line
 		n := rapid.SampledFrom([]int{4, 8, 16, 24, 32, 40}).Draw(t, "growth_lines")
 		instr := rapid.Bool().Draw(t, "growth_in_string")
